@@ -1302,6 +1302,14 @@ func goR011Total(c *Ctx, r *Repo, tp *packages.Package, fd *ast.FuncDecl) {
 				}
 			}
 			switch x := n.(type) {
+			case *ast.ForStmt:
+				// component loops visit every index: i := 0; i < <count>; i++ (mechanical-mutation finding: a loop
+				// starting at 1 skips the first component, one running to <= count indexes past the end)
+				if _, _, ok := countingLoop(info, x); !ok && !inLit {
+					c.Fail("R01.1", "walk-total|"+g.Name.Name+"|loop-form", r.Pos(x.Pos()), g.Name.Name+" walks components with a loop that is not 'for i := 0; i < <count>; i++': a component is skipped or an index past the end is read")
+				} else if !inLit {
+					c.OK("R01.1", "walk-total|"+g.Name.Name+"|loop-form", r.Pos(x.Pos()), "counting loop over all components")
+				}
 			case *ast.ReturnStmt:
 				if !inLit && !(len(stack) == 2 && g.Body.List[len(g.Body.List)-1] == ast.Stmt(x)) {
 					c.Fail("R01.1", "walk-total|"+g.Name.Name+"|early-exit", r.Pos(x.Pos()), g.Name.Name+" returns before the walk of the type's components is complete: the packages of the components that follow are never registered")
@@ -1327,6 +1335,22 @@ func goR011Total(c *Ctx, r *Repo, tp *packages.Package, fd *ast.FuncDecl) {
 				}
 			case *ast.CallExpr:
 				if calleeFunc(info, x) != self {
+					// the unsafe package is registered exactly for unsafe.Pointer
+					if fn := calleeFunc(info, x); fn != nil && fn.Name() == "addImport" && len(x.Args) >= 2 && fc.E(x.Args[1]) == "go/types.Unsafe" {
+						conds := []string{}
+						for i := len(stack) - 2; i >= 0; i-- {
+							if is, ok := stack[i].(*ast.IfStmt); ok && stack[i+1] == ast.Node(is.Body) {
+								if be, isBin := ast.Unparen(is.Cond).(*ast.BinaryExpr); !isBin || be.Op != token.EQL {
+									conds = append(conds, "not an equality test: ")
+								}
+								conds = append(conds, fc.E(is.Cond))
+							} else if ok && stack[i+1] == is.Else {
+								conds = append(conds, "!("+fc.E(is.Cond)+")")
+							}
+						}
+						okU := len(conds) == 1 && strings.HasSuffix(conds[0], ".Kind<(go/types.Basic).Kind>() == go/types.UnsafePointer")
+						c.Check(okU, "R01.1", "walk-total|"+g.Name.Name+"|unsafe-condition", r.Pos(x.Pos()), "unsafe is imported exactly for unsafe.Pointer", fmt.Sprintf("the unsafe package is registered under %v; documented: exactly when the basic type is unsafe.Pointer", conds))
+					}
 					return true
 				}
 				for i := len(stack) - 2; i >= 0; i-- {
@@ -1335,7 +1359,11 @@ func goR011Total(c *Ctx, r *Repo, tp *packages.Package, fd *ast.FuncDecl) {
 						continue
 					}
 					cond := fc.E(is.Cond)
-					okCond := stack[i+1] == ast.Node(is.Body) && strings.HasSuffix(cond, " != nil") && !strings.Contains(cond, "&&") && !strings.Contains(cond, "||")
+					if os.Getenv("MVCHECK_DEBUG") != "" {
+						fmt.Fprintln(os.Stderr, "walk cond:", g.Name.Name, cond)
+					}
+					be, isBin := ast.Unparen(is.Cond).(*ast.BinaryExpr)
+					okCond := stack[i+1] == ast.Node(is.Body) && isBin && be.Op == token.NEQ && (isNilIdent(info, be.Y) || isNilIdent(info, be.X))
 					c.Check(okCond, "R01.1", "walk-total|"+g.Name.Name+"|conditional-recursion", r.Pos(is.Pos()), "recursion guarded only by the nil-ness of a container", fmt.Sprintf("%s recurses into a component only under the condition %q: for the other types the component's packages are never registered", g.Name.Name, cond))
 				}
 			}
